@@ -30,7 +30,10 @@ RULE = ("(a) one design per operand width pair (wa, wb) <= 4 (quick) / 6 (thorou
         "bits, exhaustive values; (b) seeded random API-built designs (max width 8; every fifth up to 33 bits "
         "without *; registers with non-zero reset values, memories with initial contents, ROMs) x initial state x "
         "input sequence x merge_io_vectors x update_working_block: a case = (design, config), non-trivial when at "
-        "least half of the Outputs toggled or the design has state; every cycle compares Outputs of original / "
+        "least half of the Outputs toggled or the design has state; plus 6 directed designs in both tiers: 2-3 "
+        "memories and a ROM (pairwise different contents via memory_value_map) read through ONE address wire object "
+        "(Input / intermediate wire / Register) that is also address and data of write ports; "
+        "every cycle compares Outputs of original / "
         "synthesized / Sem / Coq model and, wire by wire, value(w) = sum_i bit(w_i) 2^i on the real block")
 IMPORTS_GATES = 'From PyRTL Require Import Pass.BasicGates.'
 IMPORTS_SPEC = 'From PyRTL Require Import Netlist.Sem Netlist.WFDefs Netlist.SpecHarness.'
@@ -537,7 +540,82 @@ def py_shape_ok(post, merge):
     return True, None
 
 
+N_DIRECTED = 6
+
+
+def build_directed(ctx, k):
+    """Directed designs for wire-IDENTITY mistakes in the lowering: 2-3 memories (MemBlock / RomBlock
+    mixes with pairwise different contents) read through the VERY SAME address WireVector object --
+    an Input directly (k even) or an intermediate wire / a Register (k odd) --, that same wire also
+    the address of one write port and the DATA of another, every memory initialised through
+    memory_value_map keyed by the original MemBlock."""
+    rng = ctx.sub_rng('directed', k)
+    pyrtl.reset_working_block()
+    d = gen_designs.Design(pyrtl.working_block())
+    aw = 2 + k % 2
+    a = pyrtl.Input(aw, 'a')
+    b = pyrtl.Input(aw, 'b')
+    din = pyrtl.Input(4, 'din')
+    en = pyrtl.Input(1, 'en')
+    d.inputs = [a, b, din, en]
+    variant = k % 3
+    if variant == 0:
+        addr = a                                   # the Input itself
+    elif variant == 1:
+        addr = pyrtl.WireVector(aw, 'addr_w')      # one intermediate wire object
+        addr <<= a ^ b
+    else:
+        addr = pyrtl.Register(aw, 'addr_r', reset_value=rng.randrange(1, 1 << aw))
+        addr.next <<= a
+        d.regs.append(addr)
+    widths = [4, aw, 5][:2 + (k // 3) % 2 + (1 if k % 2 else 0)][:3]
+    if len(widths) < 2:
+        widths = [4, aw]
+    mems = []
+    for j, bw in enumerate(widths):
+        m = pyrtl.MemBlock(bitwidth=bw, addrwidth=aw, name='dm%d' % j, max_read_ports=None,
+                           max_write_ports=None, asynchronous=True)
+        mems.append(m)
+        d.mems.append(m)
+    romvals = [rng.randrange(1 << 3) ^ (x * 3 + 1) & 7 for x in range(1 << aw)]
+    rom = pyrtl.RomBlock(bitwidth=3, addrwidth=aw, romdata=list(romvals), name='drom', max_read_ports=None,
+                         asynchronous=True)
+    rom._verif_table = list(romvals)
+    d.roms.append(rom)
+    outs = []
+    # every memory and the ROM read through the SAME address wire object, in an order that varies
+    order = list(mems) + [rom]
+    rng.shuffle(order)
+    for m in order:
+        outs.append(('rd_' + m.name, pyrtl.as_wires(m[addr])))
+    # a second read of the first memory through another wire (must not alias the first port)
+    outs.append(('rd2_' + mems[0].name, pyrtl.as_wires(mems[0][b])))
+    # the same wire as ADDRESS of a write port and as DATA of another write port
+    mems[0][addr] <<= pyrtl.MemBlock.EnabledWrite(din[:mems[0].bitwidth], en)
+    mems[1][b] <<= pyrtl.MemBlock.EnabledWrite(addr[:mems[1].bitwidth] if mems[1].bitwidth <= aw
+                                               else addr.zero_extended(mems[1].bitwidth), ~en)
+    if len(mems) > 2:
+        mems[2][addr] <<= pyrtl.concat(din, en)
+    for nm, w in outs:
+        o = pyrtl.Output(len(w), 'o_' + nm)
+        o <<= w
+        d.outputs.append(o)
+    d.ops = ['memrd'] * (len(mems) + 1) + ['romrd'] + ['memwr'] * len(mems)
+    ncycles = 8 if ctx.tier == 'quick' else 16
+    regmap = {}
+    if d.regs and k % 2:
+        regmap[d.regs[0]] = rng.randrange(1 << aw)
+    # pairwise different contents at every address
+    memmap = {m: {x: (x * (2 * j + 3) + 5 * j + 1) % (1 << m.bitwidth) for x in range(1 << aw)}
+              for j, m in enumerate(mems)}
+    inputs = [{'a': rng.randrange(1 << aw), 'b': rng.randrange(1 << aw), 'din': rng.randrange(16),
+               'en': rng.randrange(2)} for _ in range(ncycles)]
+    return d, regmap, memmap, inputs
+
+
 def build_case(ctx, i):
+    if i < 0:
+        return build_directed(ctx, -i - 1)
     rng = ctx.sub_rng('design', i)
     if i % 5 == 4:
         d = gen_designs.make_design(rng, wide_prob=0.25, max_width=33,
@@ -556,8 +634,9 @@ def part_b(ctx, only=None):
     spec_exprs, spec_cases = [], []
     shape_exprs, shape_cases = [], []
     model_exprs, model_cases = [], []
-    for i in (only if only is not None else range(n)):
+    for i in (only if only is not None else [-(k + 1) for k in range(N_DIRECTED)] + list(range(n))):
         d, regmap, memmap, inputs = build_case(ctx, i)
+        ctx.count('design_kind', 'directed-shared-address' if i < 0 else 'random')
         block = d.block
         outnames = [o.name for o in d.outputs]
         base_rep = {'part': 'b', 'seed': ctx.seed, 'design': i, 'tier': ctx.tier,
